@@ -101,6 +101,8 @@ func Request(r *http.Request) p.DpFactory {
 	default:
 		// Content-Type follows this format: Content-Type: <media-type> [; parameter=value]
 		typ, _, _ := strings.Cut(r.Header.Get("Content-Type"), ";")
+		// media types are case-insensitive and may be surrounded by whitespace (RFC 9110). net/http treats them that way too
+		typ = strings.ToLower(strings.TrimSpace(typ))
 		switch typ {
 		case "application/json":
 			return Config.Parsers.JSON(r)
